@@ -10,3 +10,6 @@ def run(tier, seed):
     if tier != "quick":
         out = cfgmachine.merge(out, cfgmachine.run_machine("C12", ["C12_Fresh"], ["C12_Marks", "C12_Reset"], tier, seed + 7, schema="SchemaB"))
     return cfgmachine.merge(out, cfgfamily.run_family("C12", ["C12_Fresh"], ["C12_Marks", "C12_Reset"], tier, seed, then="reset"))
+
+
+replay_file = cfgmachine.replay_file
